@@ -229,6 +229,7 @@ def _explore(pid, tier, seed, nworkers, only, t0):
 
     lines = []
     unreproduced = 0
+    reproduced = 0
     history_dependent = 0
     written = 0
     seen_new_keys = collections.Counter()
@@ -257,8 +258,13 @@ def _explore(pid, tier, seed, nworkers, only, t0):
                 if c1 != c2 or c1[0] != 1:
                     unreproduced += 1
                     sys.stderr.write("replay of %s not reproducible: case %r vs %r; chunk %r vs %r\n" % (path, r1, r2, c1, c2))
+                    os.remove(path)
+                    continue  # never reported as a VIOLATION: see below
                 else:
                     history_dependent += 1
+                    reproduced += 1
+            else:
+                reproduced += 1
         lines.append("VIOLATION property=%s replay=%s" % (pid, path))
         if not os.environ.get("VERIF_QUIET"):
             sys.stderr.write("  [%s] %s\n" % (v["key"], v["what"][:300]))
@@ -310,8 +316,12 @@ def _explore(pid, tier, seed, nworkers, only, t0):
         print("KNOWN-FINDING: property=%s %s [%s; %d case(s) in this run]" % (pid, known_keys[k]["what"], k, n))
     if total.states < 1 or total.evaluations < 1:
         raise env.HarnessError("vacuous exploration")
-    if unreproduced:
+    if unreproduced and not reproduced:
         raise env.HarnessError("%d violation(s) did not reproduce identically in a fresh process" % unreproduced)
+    if unreproduced:
+        # some observations of this run could not be reproduced (e.g. behaviour depending on object addresses) while others
+        # replay identically, twice, in fresh processes: only the latter are reported
+        print("NOTE: %d further observation(s) did not reproduce in a fresh process and are not reported" % unreproduced)
     if n_new:
         for l in lines:
             print(l)
